@@ -230,8 +230,52 @@ def _custom_converters():
                 return None
             return WrongTypeError(self.expected(), val)
 
+    class RevIntList(Converter):
+        """for list[int] only: a handler that looks at the type *arguments*, not just the origin"""
+        def expected(self, plural=False):
+            return 'reversed int lists' if plural else 'a reversed int list'
+
+        def into_data(self, val):
+            return list(reversed(val)) if isinstance(val, list) else val
+
+        def _ok(self, val):
+            return isinstance(val, (list, tuple)) and all(isinstance(x, int) and not isinstance(x, bool) for x in val)
+
+        def try_convert(self, val):
+            if self._ok(val):
+                return list(reversed(val))
+            raise ParseInterrupt()
+
+        def collect_errors(self, val):
+            if self._ok(val):
+                return None
+            return WrongTypeError(self.expected(), val)
+
+    class StrKeyDict(Converter):
+        """for dict[str, int] only"""
+        def expected(self, plural=False):
+            return 'upper-keyed mappings' if plural else 'an upper-keyed mapping'
+
+        def into_data(self, val):
+            return {k.lower(): v for (k, v) in val.items()} if isinstance(val, dict) else val
+
+        def _ok(self, val):
+            return isinstance(val, dict) and all(isinstance(k, str) and isinstance(v, int) and not isinstance(v, bool)
+                                                 for (k, v) in val.items())
+
+        def try_convert(self, val):
+            if self._ok(val):
+                return {k.upper(): v for (k, v) in val.items()}
+            raise ParseInterrupt()
+
+        def collect_errors(self, val):
+            if self._ok(val):
+                return None
+            return WrongTypeError(self.expected(), val)
+
     _CONV_CACHE.update(DoubleInt=DoubleInt(), UpperStr=UpperStr(), OpaqueConv=OpaqueConv(),
-                       NegFloat=NegFloat(), IncInt=IncInt(), TagStr=TagStr())
+                       NegFloat=NegFloat(), IncInt=IncInt(), TagStr=TagStr(), RevIntList=RevIntList(),
+                       StrKeyDict=StrKeyDict())
     return _CONV_CACHE
 
 
@@ -268,6 +312,19 @@ def h_inc_int(ty, args, *, handlers):
 def h_tag_str(ty, args, *, handlers):
     if ty is str and not args:
         return _custom_converters()['TagStr']
+    return NotImplemented
+
+
+def h_list_int(ty, args, *, handlers):
+    """accepts list[int] / List[int], declines every other parameterisation of list"""
+    if ty is list and tuple(args) == (int,):
+        return _custom_converters()['RevIntList']
+    return NotImplemented
+
+
+def h_dict_str_int(ty, args, *, handlers):
+    if ty is dict and tuple(args) == (str, int):
+        return _custom_converters()['StrKeyDict']
     return NotImplemented
 
 
@@ -320,6 +377,7 @@ class FaultyHandler:
 HANDLERS: t.Dict[str, t.Any] = {
     'dbl_int': h_dbl_int, 'upper_str': h_upper_str, 'opaque': h_opaque, 'neg_float': h_neg_float,
     'defer_ni': h_defer_ni, 'defer_nie': h_defer_nie, 'inc_int': h_inc_int, 'tag_str': h_tag_str,
+    'list_int': h_list_int, 'dict_str_int': h_dict_str_int,
 }
 HANDLER_MAP_CONVS = {'int': 'DoubleInt', 'str': 'UpperStr', 'Opaque': 'OpaqueConv', 'float': 'NegFloat'}
 
@@ -556,7 +614,25 @@ UNI_WORDS = ['é', 'ü-ß', '日本語', '\U0001f600', 'a\nb', 'tab\there', '\x8
              'Ω≈ç√', 'á', 'line1\nline2\n', '\r\n', 'ctrl\x07', '\x00nul', '퟿', '']
 
 
+LOOKALIKE_WORDS = ['1e3', '2E5', '1.5e3', '-2e-3', '12e4567', 'NaN', 'nan', 'Infinity', '-Infinity', '.inf', '-.INF', '.NaN',
+                   '0o17', '017', '0b101', '1_000', '+1', '.5', '5.', '0x1F', '1:30:00', '190:20:30.15', 'yes', 'No', 'ON', 'off',
+                   'y', 'n', '~', 'null', 'Null', 'NULL', 'TRUE', 'false', '=', '<<', '2001-12-14', '2001-12-14t21:59:43.10-05:00',
+                   '1e+3', '1.0', '-0', '0.', '1e', 'e5', '1,000', '[1]', '{a: 1}', '"q"', "'s'", '!!str x', '&a b', '*a',
+                   '? k', ': v', '- i', '@at', '`bt', '%TAG', '---', '...', '# not a comment', 'a: b', 'a #b', 'a:', ' ', '']
+
+
+NUMLIKE_WORDS = ['1e3', '2E5', '1.5e3', '-2e-3', '12e4567', 'NaN', 'Infinity', '-Infinity', '1e+3', '1E400', '0e0', '1e-7',
+                 '123e1', '5e0', '-1E5', '9e99', '1e3', '2E5', '-0', '1.0', '1', 'true', 'null', '0x10', '1_0', '01', '1.', '.1']
+
+
 def sample_str(rng, alphabet='mixed'):
+    if alphabet == 'numlike':
+        return rng.choice(NUMLIKE_WORDS)
+    if alphabet == 'lookalike':
+        w = rng.choice(LOOKALIKE_WORDS)
+        if rng.random() < 0.1:
+            w = w + rng.choice(['', ' ', 'x', 'é'])
+        return w
     r = rng.random()
     if alphabet == 'ascii' or (alphabet == 'mixed' and r < 0.5):
         w = rng.choice(ASCII_WORDS)
